@@ -13,6 +13,7 @@ mc/ref/values.py and carry the exact (base, dots, ratio) the decoded entry must 
 """
 from fractions import Fraction
 import itertools
+import json
 import zlib
 
 from mc import engine
@@ -127,8 +128,15 @@ def build_track(spec):
     if spec.get("name") is not None:
         t.name = spec["name"]
     exp = []
+    shared = {}
     for bs in spec["bars"]:
-        bar, e = build_bar(bs)
+        k = json.dumps(bs, sort_keys=True)
+        if spec.get("share") and k in shared:
+            # a repeated section: the very same Bar object stands at several places of the track
+            bar, e = shared[k]
+        else:
+            bar, e = build_bar(bs)
+            shared[k] = (bar, e)
         if bar is None:
             return None, None
         t.add_bar(bar)
@@ -793,6 +801,8 @@ def gen_xml_track(shard):
     for seq in bar_sequences(zoo, maxlen):
         spec = {"bars": seq, "instr": instr}
         yield spec
+        if len(seq) > len(set(json.dumps(b, sort_keys=True) for b in seq)):
+            yield dict(spec, share=True)
         if instr is not None and len(seq) == 1:
             yield dict(spec, name="Tr & <1>", iname="I \"q\" 'a' &")
 
@@ -848,9 +858,13 @@ def explore(ctx):
     if ctx.want("ly_track"):
         zoo = zoo_bars()
         ctx.bound("track_zoo_bars", len(zoo))
-        ctx.product("ly_track", range(len(zoo)),
-                    lambda i: ({"bars": [zoo[i]] + [zoo[j] for j in rest]} for n in (0, 1, 2)
-                               for rest in itertools.product(range(len(zoo)), repeat=n)))
+        def _ly_tracks(i):
+            for n in (0, 1, 2):
+                for rest in itertools.product(range(len(zoo)), repeat=n):
+                    yield {"bars": [zoo[i]] + [zoo[j] for j in rest]}
+                    if len(set((i,) + rest)) < n + 1:
+                        yield {"bars": [zoo[i]] + [zoo[j] for j in rest], "share": True}      # one Bar object, several places
+        ctx.product("ly_track", range(len(zoo)), _ly_tracks)
     if ctx.want("ly_composition"):
         s2 = strings(LY_CHARS, 2) + LY_NASTY
         s1 = strings(LY_CHARS, 1)
